@@ -174,6 +174,16 @@ CLAIMED = {
             "Schedules are whatever the Go scheduler produces under load (not enumerated); programs with futures are not in "
             "the pool; the race detector is trusted.",
             "§8 C11"),
+    "C07": ("Cancel.tla models evaluation under a context (poll at every loop iteration, context-aware sleep/deref, try body "
+            "under an 80 % child budget, handler/finally under the parent) and TLC explores cancellation / expiry at every "
+            "step of 86 program shapes, checking a bound on post-cancel loop iterations and ended ~> done; the real context "
+            "is cancelled by the loop-top hook at the k-th real loop iteration for 12 instants per shape and the real "
+            "iteration count after cancellation is compared with the model's bound; deadline scenarios with a real timeout",
+            "Exhaustive model checking of all shapes in both modes; 86 shapes x 12 deterministic cancellation instants on the "
+            "real code (hook-driven, no wall clock in the verdict except a 5 s not-returned watchdog); 32 / 86 wall-clock "
+            "deadline scenarios with >= 2.5 s slack, three attempts.",
+            "Builtins are assumed short on small data (as the property states); the deadline part is coarse wall clock.",
+            "§8 C07"),
 }
 
 NOT_YET = "check not built yet in this round (planned in DESIGN.md §8; the specification module exists or is in progress)"
